@@ -10,4 +10,9 @@ for c in m['checks']:
     except FileNotFoundError:
         print("missing evidence", f)
 ids = {c['property_id'] for c in m['checks']} | {n['property_id'] for n in m.get('not_applicable', [])}
+for c in m["checks"]:
+    try:
+        e=json.load(open(c["evidence_file"]))
+        if e["coverage"].get("obligations")!=e["coverage"].get("discharged"): print("MISMATCH", c["evidence_file"])
+    except FileNotFoundError: pass
 print("manifest valid; properties covered:", len(ids))
